@@ -64,9 +64,9 @@ func vIndexOf(list ChangeList, alias string) int {
 func vhPlanForest() {
 	n := vParam("N", 3)
 	d := &vDB{}
-	arts, hashes := []int{1, 0}, []int{1}
+	arts, hashes := []int{1, 0, 4}, []int{1} // cert+key, nothing, certificate without key material
 	if vParam("RICH", 0) == 1 {
-		arts, hashes = []int{1, 0, 2}, []int{1, 2}
+		arts, hashes = []int{1, 0, 2, 4}, []int{1, 2}
 	}
 	fs := vForest(d, n, arts, hashes)
 	strat := vInt("strat", 0, 31)
